@@ -2,397 +2,85 @@ package extract
 
 import (
 	"fmt"
-	"go/ast"
-	"go/token"
 	"strings"
 )
 
 // C06Guards: for every defect of property C06 that was repaired in the
-// repository, whether the source still has the check the repair put there
-// (each recognised by its shape in the named function). The witnesses of the
-// defects are replayed on every run as well; these facts fail the obligation
-// `fixed_defect_guards_present` as soon as a guard is edited away, whatever the
-// generators draw.
+// repository, whether the repair still holds.
+//
+// EVALUATED (design/EXTRACT.md, round 2): the probe go/cmd/rxprobe/c06guards
+// runs, per fact, the inputs that showed the defect (and close variants) against
+// the real function, each in a process of its own, and the fact is true when
+// every one of them is handled: an answer within the time limit, no panic, no
+// stack overflow, no crash of the process by a finalizer, no allocation out of
+// proportion, and — where the repair is a refusal — an error.  How the guard is
+// written does not matter; a guard that is edited away makes its witness fail
+// again and the obligation `fixed_defect_guards_present` with it.
 func init() {
 	Register(Gen{Name: "C06Guards", Run: func(repo string) (string, error) {
 		out := Header("C06Guards", "pkg/tarfs/tarfs.go", "layer.go", "dpkg/scanner.go", "apk/scanner.go", "osrelease/scanner.go",
 			"java/jar/jar.go", "indexer/layerscanner.go", "rpm/sqlite/sqlite.go", "rpm/ndb/package.go", "rpm/ndb/ndb.go", "rpm/files.go", "rpm/bdb/bdb.go", "rhel/dockerfile/dockerfile.go")
-		type fact struct {
-			name, doc string
-			val       bool
+		var ans struct {
+			Facts map[string]struct {
+				OK        bool `json:"ok"`
+				Witnesses []struct {
+					Name    string `json:"name"`
+					Handled bool   `json:"handled"`
+					Detail  string `json:"detail"`
+				} `json:"witnesses"`
+			} `json:"facts"`
 		}
-		var facts []fact
-		add := func(name, doc string, v bool) { facts = append(facts, fact{name, doc, v}) }
-
-		// condIn: does the function have an if statement (or a case of a
-		// tag-less switch) whose condition renders as one of conds?
-		condIn := func(fd *ast.FuncDecl, conds ...string) bool {
-			if fd == nil {
-				return false
+		if err := rxProbe(repo, "c06guards", map[string]any{}, &ans); err != nil {
+			return "", err
+		}
+		for _, f := range rxC06GuardFacts {
+			r, ok := ans.Facts[f[0]]
+			if !ok || len(r.Witnesses) == 0 {
+				return "", fmt.Errorf("c06guards probe: no witness ran for %s", f[0])
 			}
-			found := false
-			ast.Inspect(fd.Body, func(n ast.Node) bool {
-				switch x := n.(type) {
-				case *ast.IfStmt:
-					c := exprString(x.Cond)
-					for _, w := range conds {
-						if c == w || strings.Contains(c, w) {
-							found = true
-						}
+			out += fmt.Sprintf("\n/-- %s -/\ndef %s : Bool := %v\n", f[1], f[0], r.OK)
+			for _, w := range r.Witnesses {
+				if !w.Handled {
+					d := strings.Join(strings.Fields(w.Detail), " ")
+					if len(d) > 300 {
+						d = d[:300] + " …"
 					}
-				case *ast.CaseClause:
-					for _, e := range x.List {
-						c := exprString(e)
-						for _, w := range conds {
-							if c == w || strings.Contains(c, w) {
-								found = true
-							}
-						}
-					}
-				}
-				return true
-			})
-			return found
-		}
-		callsIn := func(fd *ast.FuncDecl, fun string) int {
-			n := 0
-			if fd == nil {
-				return 0
-			}
-			ast.Inspect(fd.Body, func(nd ast.Node) bool {
-				if c, ok := nd.(*ast.CallExpr); ok && exprString(c.Fun) == fun {
-					n++
-				}
-				return true
-			})
-			return n
-		}
-		need := func(f *ast.File, recv, name, rel string) (*ast.FuncDecl, error) {
-			fd := FuncDecl(f, recv, name)
-			if fd == nil {
-				return nil, fmt.Errorf("%s: function %s not found", rel, name)
-			}
-			return fd, nil
-		}
-
-		// pkg/tarfs/tarfs.go
-		_, tf, err := ParseFile(repo, "pkg/tarfs/tarfs.go")
-		if err != nil {
-			return "", err
-		}
-		open, err := need(tf, "FS", "open", "pkg/tarfs/tarfs.go")
-		if err != nil {
-			return "", err
-		}
-		addFn, err := need(tf, "FS", "add", "pkg/tarfs/tarfs.go")
-		if err != nil {
-			return "", err
-		}
-		walk, err := need(tf, "FS", "walkTo", "pkg/tarfs/tarfs.go")
-		if err != nil {
-			return "", err
-		}
-		add("tarfsOpenSymlinkHopBound", "tarfs.open gives up after more symbolic-link hops than inodes (daa67834)", condIn(open, "hops > len(f.inode)"))
-		add("tarfsOpenHardlinkHopBound", "the hard-link chain loop of tarfs.open is bounded by the inode count (daa67834)", condIn(open, "hops >= len(f.inode)"))
-		add("tarfsAddHopBound", "tarfs.add counts the symbolic links it follows (daa67834)", condIn(addFn, "hops > len(f.inode)"))
-		add("tarfsOpenChecksSize", "tarfs.open compares a member's size with its archive segment, also for hard-link targets (ce813f23)", callsIn(open, "checkSize") >= 2)
-		add("tarfsWalkCycleCheck", "tarfs.walkTo keeps the set of links already followed", callsIn(walk, "make") >= 1 && condIn(walk, "ok") && strings.Contains(funcText(walk), "cycle[ci]"))
-
-		// layer.go: the finalizer is installed after the media type switch
-		_, lf, err := ParseFile(repo, "layer.go")
-		if err != nil {
-			return "", err
-		}
-		initFn, err := need(lf, "Layer", "Init", "layer.go")
-		if err != nil {
-			return "", err
-		}
-		sw, fin := -1, -1
-		for i, st := range initFn.Body.List {
-			switch x := st.(type) {
-			case *ast.SwitchStmt:
-				if exprString(x.Tag) == "desc.MediaType" {
-					sw = i
-				}
-			case *ast.ExprStmt:
-				if c, ok := x.X.(*ast.CallExpr); ok && exprString(c.Fun) == "runtime.SetFinalizer" {
-					fin = i
+					out += fmt.Sprintf("-- not handled: %s: %s\n", w.Name, strings.ReplaceAll(d, "-/", "- /"))
 				}
 			}
-		}
-		if sw < 0 || fin < 0 {
-			return "", fmt.Errorf("layer.go: Layer.Init: media type switch or SetFinalizer not found")
-		}
-		add("layerFinalizerAfterInit", "Layer.Init installs the not-closed finalizer only when nothing can fail any more", fin > sw)
-
-		// dpkg/scanner.go: goto Restart only under errors.As(err, &perr)
-		_, df, err := ParseFile(repo, "dpkg/scanner.go")
-		if err != nil {
-			return "", err
-		}
-		ps, err := need(df, "", "parseStatus", "dpkg/scanner.go")
-		if err != nil {
-			return "", err
-		}
-		gotos, guarded := 0, 0
-		ast.Inspect(ps.Body, func(n ast.Node) bool {
-			cc, ok := n.(*ast.CaseClause)
-			if !ok {
-				return true
-			}
-			has := false
-			for _, st := range cc.Body {
-				ast.Inspect(st, func(m ast.Node) bool {
-					if b, ok := m.(*ast.BranchStmt); ok && b.Tok == token.GOTO && b.Label != nil && b.Label.Name == "Restart" {
-						has = true
-					}
-					return true
-				})
-			}
-			if has {
-				gotos++
-				for _, e := range cc.List {
-					// a malformed entry, or an empty header without an error (a
-					// second blank line): in both the reader has moved on
-					if c := exprString(e); strings.HasPrefix(c, "errors.As(err, &") || c == "err == nil" {
-						guarded++
-					}
-				}
-			}
-			return true
-		})
-		allGotos := 0
-		ast.Inspect(ps.Body, func(n ast.Node) bool {
-			if b, ok := n.(*ast.BranchStmt); ok && b.Tok == token.GOTO {
-				allGotos++
-			}
-			return true
-		})
-		add("dpkgRestartOnlyOnProtocolError", "dpkg parseStatus starts over only after a malformed entry or a blank line, never after a failing read (dd58a366, 02113a58)", gotos == allGotos && gotos == guarded)
-
-		// apk/scanner.go
-		_, af, err := ParseFile(repo, "apk/scanner.go")
-		if err != nil {
-			return "", err
-		}
-		apkScan, err := need(af, "Scanner", "Scan", "apk/scanner.go")
-		if err != nil {
-			return "", err
-		}
-		add("apkLineLengthGuard", "the apk scanner skips lines shorter than two bytes before line[2:] (0eddde4a)", condIn(apkScan, "len(line) < 2"))
-
-		// osrelease/scanner.go: the empty-line case precedes b[0]
-		_, of, err := ParseFile(repo, "osrelease/scanner.go")
-		if err != nil {
-			return "", err
-		}
-		osParse, err := need(of, "", "Parse", "osrelease/scanner.go")
-		if err != nil {
-			return "", err
-		}
-		emptyFirst := false
-		ast.Inspect(osParse.Body, func(n ast.Node) bool {
-			s, ok := n.(*ast.SwitchStmt)
-			if !ok || s.Tag != nil || len(s.Body.List) < 2 {
-				return true
-			}
-			c0, ok0 := s.Body.List[0].(*ast.CaseClause)
-			c1, ok1 := s.Body.List[1].(*ast.CaseClause)
-			if ok0 && ok1 && len(c0.List) == 1 && len(c1.List) == 1 && exprString(c0.List[0]) == "len(b) == 0" && strings.HasPrefix(exprString(c1.List[0]), "b[0]") {
-				emptyFirst = true
-			}
-			return true
-		})
-		add("osreleaseEmptyLineFirst", "osrelease.Parse looks at the length of a line before its first byte", emptyFirst)
-
-		// java/jar/jar.go
-		_, jf, err := ParseFile(repo, "java/jar/jar.go")
-		if err != nil {
-			return "", err
-		}
-		jarText := ""
-		for _, d := range jf.Decls {
-			if fd, ok := d.(*ast.FuncDecl); ok && fd.Body != nil {
-				jarText += funcText(fd) + "\n"
-			}
-		}
-		add("jarManifestLimited", "java/jar reads a manifest through a size limit (e7cfb6f4)", strings.Contains(jarText, "io.LimitReader(r, maxManifest)"))
-		add("jarNestingBounded", "java/jar stops descending into nested jars (68049d03)", strings.Contains(jarText, "len(p) >= maxNesting"))
-		add("jarPreallocBounded", "java/jar reserves buffer space by a zip header only when it is modest (68049d03)", strings.Contains(jarText, "sz <= maxPrealloc"))
-
-		// indexer/layerscanner.go: concurrent < 1 falls through to the default
-		_, isf, err := ParseFile(repo, "indexer/layerscanner.go")
-		if err != nil {
-			return "", err
-		}
-		nls, err := need(isf, "", "NewLayerScanner", "indexer/layerscanner.go")
-		if err != nil {
-			return "", err
-		}
-		rect := false
-		ast.Inspect(nls.Body, func(n ast.Node) bool {
-			cc, ok := n.(*ast.CaseClause)
-			if !ok || len(cc.List) != 1 || exprString(cc.List[0]) != "concurrent < 1" || len(cc.Body) == 0 {
-				return true
-			}
-			if b, ok := cc.Body[len(cc.Body)-1].(*ast.BranchStmt); ok && b.Tok == token.FALLTHROUGH {
-				rect = true
-			}
-			return true
-		})
-		add("layerScannerRectifiesConcurrency", "NewLayerScanner replaces a concurrency below one by a default (a limit of zero would block every scan)", rect)
-
-		// rpm/sqlite/sqlite.go: Close on a failed ping, finalizer after it
-		_, sf, err := ParseFile(repo, "rpm/sqlite/sqlite.go")
-		if err != nil {
-			return "", err
-		}
-		sqOpen, err := need(sf, "", "Open", "rpm/sqlite/sqlite.go")
-		if err != nil {
-			return "", err
-		}
-		closes, ping, sfin := false, -1, -1
-		for i, st := range sqOpen.Body.List {
-			switch x := st.(type) {
-			case *ast.IfStmt:
-				if x.Init != nil && strings.Contains(funcTextNode(x.Init), "db.Ping()") {
-					ping = i
-					ast.Inspect(x.Body, func(n ast.Node) bool {
-						if c, ok := n.(*ast.CallExpr); ok && exprString(c.Fun) == "db.Close" {
-							closes = true
-						}
-						return true
-					})
-				}
-			case *ast.ExprStmt:
-				if c, ok := x.X.(*ast.CallExpr); ok && exprString(c.Fun) == "runtime.SetFinalizer" {
-					sfin = i
-				}
-			}
-		}
-		if ping < 0 || sfin < 0 {
-			return "", fmt.Errorf("rpm/sqlite/sqlite.go: Open: ping or SetFinalizer not found")
-		}
-		add("sqliteOpenClosesOnPingFailure", "sqlite.Open closes the pool when the ping fails and arms the finalizer only afterwards (9c747ab8)", closes && sfin > ping)
-
-		// rpm/ndb/package.go, ndb.go
-		_, nf, err := ParseFile(repo, "rpm/ndb/package.go")
-		if err != nil {
-			return "", err
-		}
-		ndbParse, err := need(nf, "PackageDB", "Parse", "rpm/ndb/package.go")
-		if err != nil {
-			return "", err
-		}
-		add("ndbSlotHintClamped", "ndb Parse sizes its table by a clamped hint, not by a header field (cc30b30c)", strings.Contains(funcText(ndbParse), "make(?, 0, hint)") && condIn(ndbParse, "hint > lim"))
-		_, xf, err := ParseFile(repo, "rpm/ndb/ndb.go")
-		if err != nil {
-			return "", err
-		}
-		xdbParse, err := need(xf, "XDB", "Parse", "rpm/ndb/ndb.go")
-		if err != nil {
-			return "", err
-		}
-		add("xdbSlotAreaChecked", "ndb XDB.Parse checks the slot area against the header size and the file before allocating (dda4114b)", condIn(xdbParse, "sz < headerSize") && strings.Contains(funcText(xdbParse), "make(?, sz)"))
-
-		// rpm/files.go: the "no database" answer is cached
-		_, ff, err := ParseFile(repo, "rpm/files.go")
-		if err != nil {
-			return "", err
-		}
-		gf, err := need(ff, "filesCache", "getFiles", "rpm/files.go")
-		if err != nil {
-			return "", err
-		}
-		cached := false
-		ast.Inspect(gf.Body, func(n ast.Node) bool {
-			is, ok := n.(*ast.IfStmt)
-			if ok && exprString(is.Cond) == "len(found) == 0" {
-				ast.Inspect(is.Body, func(m ast.Node) bool {
-					if c, ok := m.(*ast.CallExpr); ok && exprString(c.Fun) == "fc.set" {
-						cached = true
-					}
-					return true
-				})
-			}
-			return true
-		})
-		add("rpmFilesCacheRemembersNoDatabase", "rpm.FileInstalledByRPM remembers that a layer has no rpm database (903cc5ad)", cached)
-
-		// rpm/bdb/bdb.go: one seen set for the whole file, checked before a page is linked
-		_, bf, err := ParseFile(repo, "rpm/bdb/bdb.go")
-		if err != nil {
-			return "", err
-		}
-		ah, err := need(bf, "PackageDB", "AllHeaders", "rpm/bdb/bdb.go")
-		if err != nil {
-			return "", err
-		}
-		seenTop := false
-		for _, st := range ah.Body.List {
-			if as, ok := st.(*ast.AssignStmt); ok && len(as.Lhs) == 1 && exprString(as.Lhs[0]) == "seen" {
-				seenTop = true
-			}
-		}
-		add("bdbSeenSetIsFileWide", "bdb AllHeaders keeps one set of linked overflow pages for the whole file (ef45a299)", seenTop && strings.Contains(funcText(ah), "seen[n]"))
-
-		// rhel/dockerfile/dockerfile.go: expanded values are bounded
-		_, dkf, err := ParseFile(repo, "rhel/dockerfile/dockerfile.go")
-		if err != nil {
-			return "", err
-		}
-		ha, err := need(dkf, "labelParser", "handleAssign", "rhel/dockerfile/dockerfile.go")
-		if err != nil {
-			return "", err
-		}
-		add("dockerfileValuesBounded", "the Dockerfile parser bounds every expanded value (b76ed6e6)", callsIn(ha, "checkValue") >= 2)
-
-		for _, f := range facts {
-			out += fmt.Sprintf("\n/-- %s -/\ndef %s : Bool := %v\n", f.doc, f.name, f.val)
 		}
 		out += "\ndef all : List (String × Bool) := [\n"
-		for i, f := range facts {
+		for i, f := range rxC06GuardFacts {
 			sep := ","
-			if i == len(facts)-1 {
+			if i == len(rxC06GuardFacts)-1 {
 				sep = ""
 			}
-			out += fmt.Sprintf("  (%s, %s)%s\n", LeanString(f.name), f.name, sep)
+			out += fmt.Sprintf("  (%s, %s)%s\n", LeanString(f[0]), f[0], sep)
 		}
 		out += "]\n"
 		return out + Footer("C06Guards"), nil
 	}})
 }
 
-// funcText renders the statements of a function body as expression strings
-// (assignments, calls, conditions), enough for substring checks of shapes.
-func funcText(fd *ast.FuncDecl) string {
-	if fd == nil || fd.Body == nil {
-		return ""
-	}
-	return funcTextNode(fd.Body)
-}
-
-func funcTextNode(n ast.Node) string {
-	var sb strings.Builder
-	ast.Inspect(n, func(m ast.Node) bool {
-		switch x := m.(type) {
-		case *ast.AssignStmt:
-			for _, l := range x.Lhs {
-				sb.WriteString(exprString(l) + " ")
-			}
-			sb.WriteString(x.Tok.String() + " ")
-			for _, r := range x.Rhs {
-				sb.WriteString(exprString(r) + " ")
-			}
-			sb.WriteString("\n")
-		case *ast.ExprStmt:
-			sb.WriteString(exprString(x.X) + "\n")
-		case *ast.IfStmt:
-			sb.WriteString("if " + exprString(x.Cond) + "\n")
-		case *ast.CompositeLit:
-			return true
-		}
-		return true
-	})
-	return sb.String()
+// rxC06GuardFacts: name and doc comment of every guard fact, in the order Gen/C06Guards lists them.
+var rxC06GuardFacts = [][2]string{
+	{"tarfsOpenSymlinkHopBound", "tarfs.open gives up after more symbolic-link hops than inodes (daa67834)"},
+	{"tarfsOpenHardlinkHopBound", "the hard-link chain loop of tarfs.open is bounded by the inode count (daa67834)"},
+	{"tarfsAddHopBound", "tarfs.add counts the symbolic links it follows (daa67834)"},
+	{"tarfsOpenChecksSize", "tarfs.open compares a member's size with its archive segment, also for hard-link targets (ce813f23)"},
+	{"tarfsWalkCycleCheck", "tarfs.walkTo keeps the set of links already followed"},
+	{"layerFinalizerAfterInit", "Layer.Init installs the not-closed finalizer only when nothing can fail any more"},
+	{"dpkgRestartOnlyOnProtocolError", "dpkg parseStatus starts over only after a malformed entry or a blank line, never after a failing read (dd58a366, 02113a58)"},
+	{"apkLineLengthGuard", "the apk scanner skips lines shorter than two bytes before line[2:] (0eddde4a)"},
+	{"osreleaseEmptyLineFirst", "osrelease.Parse looks at the length of a line before its first byte"},
+	{"jarManifestLimited", "java/jar reads a manifest through a size limit (e7cfb6f4)"},
+	{"jarNestingBounded", "java/jar stops descending into nested jars (68049d03)"},
+	{"jarPreallocBounded", "java/jar reserves buffer space by a zip header only when it is modest (68049d03)"},
+	{"layerScannerRectifiesConcurrency", "NewLayerScanner replaces a concurrency below one by a default (a limit of zero would block every scan)"},
+	{"sqliteOpenClosesOnPingFailure", "sqlite.Open closes the pool when the ping fails and arms the finalizer only afterwards (9c747ab8)"},
+	{"ndbSlotHintClamped", "ndb Parse sizes its table by a clamped hint, not by a header field (cc30b30c)"},
+	{"xdbSlotAreaChecked", "ndb XDB.Parse checks the slot area against the header size and the file before allocating (dda4114b)"},
+	{"rpmFilesCacheRemembersNoDatabase", "rpm.FileInstalledByRPM remembers that a layer has no rpm database (903cc5ad)"},
+	{"bdbSeenSetIsFileWide", "bdb AllHeaders keeps one set of linked overflow pages for the whole file (ef45a299)"},
+	{"dockerfileValuesBounded", "the Dockerfile parser bounds every expanded value (b76ed6e6)"},
 }
